@@ -84,3 +84,29 @@ func (srv *server) VerifPendingWills() (ids []string) {
 	}
 	return
 }
+
+// VerifLimiter exposes the packet id limiter.
+type VerifLimiter struct{ p *packetIDLimiter }
+
+func VerifNewLimiter(limit uint16) *VerifLimiter { return &VerifLimiter{p: newPacketIDLimiter(limit)} }
+
+// Poll is pollPacketIDs, except that it reports blocked=true instead of waiting.
+func (l *VerifLimiter) Poll(max uint16) (ids []uint16, blocked bool) {
+	l.p.cond.L.Lock()
+	if l.p.used >= l.p.limit && !l.p.exit {
+		l.p.cond.L.Unlock()
+		return nil, true
+	}
+	l.p.cond.L.Unlock()
+	return l.p.pollPacketIDs(max), false
+}
+func (l *VerifLimiter) Release(id uint16)         { l.p.release(id) }
+func (l *VerifLimiter) BatchRelease(ids []uint16) { l.p.batchRelease(ids) }
+func (l *VerifLimiter) MarkUsed(id uint16) {
+	l.p.lock()
+	l.p.markUsedLocked(id)
+	l.p.unlock()
+}
+func (l *VerifLimiter) Close()               { l.p.close() }
+func (l *VerifLimiter) Used() uint16         { l.p.lock(); defer l.p.unlock(); return l.p.used }
+func (l *VerifLimiter) SetFreePid(id uint16) { l.p.lock(); l.p.freePid = id; l.p.unlock() }
